@@ -97,9 +97,9 @@ func c14PushRun(c *Ctx, cs c14PushCase, count bool) {
 	p := func() (msg string) {
 		defer func() {
 			if r := recover(); r != nil {
-				if _, ok := r.(deadlockPanic); ok {
+				if dp, ok := r.(deadlockPanic); ok {
 					dead = true
-					heldMutexes.Range(func(k, _ any) bool { heldMutexes.Delete(k); return true })
+					heldMutexes.Delete(dp.mutex)
 					return
 				}
 				msg = fmt.Sprint(r)
@@ -298,10 +298,12 @@ func c14PolOps(isCond bool) []polOp {
 }
 
 func c14PolMachine(c *Ctx, kind string) *Machine[*polInst] {
+	name := "C14 closures " + kind
+	deco := strings.HasSuffix(kind, "+decorated")
+	kind = strings.TrimSuffix(kind, "+decorated")
 	isCond := strings.HasPrefix(kind, "CONDITION")
 	builtinValid := kind != "CONDITION-invalid"
 	ops := c14PolOps(isCond)
-	name := "C14 closures " + kind
 	build := func() *polInst {
 		if kind == "CONDITION-invalid" {
 			// a Condition the built-in validity rules reject (no keyword): an installed closure is the sole judge
@@ -309,6 +311,12 @@ func c14PolMachine(c *Ctx, kind string) *Machine[*polInst] {
 		}
 		if isCond {
 			return &polInst{isCond: true, cd: stackage.Cond("kw", stackage.Eq, "val"), ct: stackage.Cond("kw", stackage.Eq, "val"), kind: kind}
+		}
+		if deco {
+			mk := func() stackage.Stack {
+				return decorate(newStackKind(kind)).SetMutex().Push("a", stackage.Cond("k", stackage.Eq, "v"), "b")
+			}
+			return &polInst{s: mk(), tw: mk(), kind: kind}
 		}
 		return &polInst{s: newStackKind(kind).Push("a", stackage.Cond("k", stackage.Eq, "v"), "b"), tw: newStackKind(kind).Push("a", stackage.Cond("k", stackage.Eq, "v"), "b"), kind: kind}
 	}
@@ -478,7 +486,7 @@ func init() {
 		c.States.Add(int64(len(cases)))
 		c.Exhaustive = true
 		kinds := append([]string{}, kindNames...)
-		kinds = append(kinds, "CONDITION", "CONDITION-invalid")
+		kinds = append(kinds, "CONDITION", "CONDITION-invalid", "BASIC+decorated", "AND+decorated", "LIST+decorated")
 		for _, k := range kinds {
 			st := BFS(c, c14PolMachine(c, k))
 			c.Exhaustive = c.Exhaustive && st.Complete
